@@ -30,6 +30,10 @@ RULE = ('random ambiguous grammars (<=4 non-terminals, <=3 alternatives of lengt
         '(also overlapping) %ignore terminals, half of them ambiguous at the root between differently shaped start '
         'alternatives (aliases, _rules, ?rules, filtered/kept tokens), inputs with leading/inner/trailing ignored text, '
         'oracle at character level with ignored text allowed before every token and after the last one; '
+        'stacked-corpus stream (fixed, independent of VERIF_SEED): 12 grammars with ambiguity stacked through chains of '
+        'inlined _rules (ambiguous intermediate node over an ambiguous inlined child, 2-3 levels, ?rules, !rules, filtered and '
+        'kept tokens) x 3 lexers x placeholders on/off, same oracle and Coq comparisons; the random generator draws 20% of '
+        'its acyclic grammars from the same class (gen_chain_grammar); '
         'alg-families stream: every SymbolNode.add_family call of a parse (basic lexer) logged and compared as a set, '
         'with the outcome, with the instrumented executable model evaluated in Coq. '
         'non-trivial = distinct (grammar, lexer, input) whose explicit tree contains at least one _ambig')
@@ -192,8 +196,67 @@ def gen_root_ambig_grammar(rng, lexer):
     return '\n'.join(lines) + '\n'
 
 
+# Fixed corpus (independent of VERIF_SEED): *stacked* ambiguity through chains of inlined _rules - an ambiguous
+# intermediate node of a rule whose inlined child is itself ambiguous (2-3 levels, filtered and kept tokens, ?rules in the
+# chain, !rules lifting every ambiguity).  The explicit tree then nests _ambig inside _ambig below a node that is spliced
+# into its parent; every level of flattening/lifting in _collapse_ambig / AmbiguousExpander / AmbiguousIntermediateExpander
+# is exercised.  Each grammar runs under all three lexers, with and without placeholders.
+STACKED_CORPUS = [
+    ('start: _a\n_a: _b x y\n_b: b1 | b2\nb1: P+\nb2: P+\nx: P+\ny: "y"\nP: "p"\n', ['ppy', 'pppy', 'ppppy']),
+    ('start: _a\n_a: _b x "y"\n_b: _c | b2\n_c: c1 | c2\nc1: P+\nc2: P P*\nb2: P+\nx: P+\nP: "p"\n', ['ppy', 'pppy', 'ppppy']),
+    ('start: _a\n_a: _b y\n_b: _c x\n_c: c1 | c2\nc1: P+\nc2: "p"+\nx: P+\ny: "y"\nP: "p"\n', ['ppy', 'pppy', 'ppppy']),
+    ('start: w _a\nw: P?\n_a: _b x\n_b: q | b2\n?q: c1 | c2\nc1: P+\nc2: P+\nb2: P+\nx: P+\nP: "p"\n', ['pp', 'ppp', 'pppp']),
+    ('start: w _a\nw: P?\n_a: _b x\n_b: q | b2\n?q: P+ | r\nr: P P\nb2: P+\nx: P+\nP: "p"\n', ['pp', 'ppp', 'pppp']),
+    ('start: _a _a\n_a: _b x\n_b: b1 | b2\nb1: "p"+\nb2: P+\nx: P+ | "p" P\nP: "p"\n', ['pppp', 'ppppp']),
+    ('start: _a -> top\n   | z\nz: P+\n_a: _b x [Y]\n_b: b1 | _c\n_c: b1 b1 | b2\nb1: P+\nb2: P P+\nx: P+\nP: "p"\nY: "y"\n',
+     ['ppp', 'pppp', 'ppppy']),
+    ('!start: _a\n_a: _b x "y"\n_b: b1 | b2\nb1: P+\nb2: "p"+\nx: P+\nP: "p"\n', ['pppy', 'ppppy']),
+    ('start: k\nk: _a | k2\nk2: P+ "y"\n_a: _b _d "y"\n_b: b1 | b2\n_d: x | x2\nb1: P+\nb2: P+\nx: P+\nx2: P\nP: "p"\n', ['ppy', 'pppy']),
+    ('start: _a\n_a: _b _b\n_b: _c x\n_c: c1 | c2 | c1 c2\nc1: P\nc2: P | P P\nx: P+\nP: "p"\n', ['pppp', 'ppppp']),
+    ('?start: _a | z\nz: P+\n_a: _b x\n_b: b1 | b2\n?b1: P+\nb2: P+\n?x: P+\nP: "p"\n', ['pp', 'ppp', 'pppp']),
+    ('start: _a\n_a: [Y] _b x\n_b: _c | _e\n_c: c1 | c2\n_e: c1 "p" | "p" c2\nc1: P+\nc2: P+\nx: P*\nP: "p"\nY: "y"\n', ['pp', 'ppp', 'yppp']),
+]
+
+
+def gen_chain_grammar(rng, lexer):
+    """random member of the same class: start uses an inlined _a, _a: _b x .., _b (and below it _c / ?q) ambiguous, the
+    symbol after the inlined child makes the intermediate node of _a ambiguous as well"""
+    leaf = ['A+', '"a"+', 'A A*', 'A', 'A A', 'A "a"', '"a" A']
+    rules = []
+    depth = rng.randint(2, 3)
+    names = ['_a', '_b', '_c'][:depth]
+    start = rng.choice(['_a', '_a', 'w _a', '_a -> top\n  | z', '_a _a', '_a B?', 'k'])
+    if 'w ' in start:
+        rules.append('w: A?')
+    if '| z' in start:
+        rules.append('z: A+')
+    if start == 'k':
+        rules.append('%sk: _a | k2' % rng.choice(['', '?', '!']))
+        rules.append('k2: A+ "b"?')
+    lines = ['%sstart: %s' % (rng.choice(['', '', '!', '?']), start)]
+    for lv, n in enumerate(names):
+        if lv + 1 < depth:
+            # an inlined child followed by something that can take over part of its text
+            nxt = names[lv + 1]
+            tail = rng.choice(['x', 'x y', 'x "b"?', 'x [B]', nxt + ' x', 'x2'])
+            alts = ['%s %s' % (nxt, tail)]
+            if rng.random() < 0.3:
+                alts.append(rng.choice(['b1', 'b1 x']))
+        else:
+            pool = ['b1', 'b2', 'q', 'b1 b2', 'b2 "a"', '"a" b1']
+            alts = rng.sample(pool, rng.randint(2, 3))
+        lines.append('%s: %s' % (n, ' | '.join(alts)))
+    rules += ['b1: %s' % rng.choice(leaf), '%sb2: %s' % (rng.choice(['', '', '?']), rng.choice(leaf)),
+              '?q: c1 | c2', 'c1: %s' % rng.choice(leaf), 'c2: %s' % rng.choice(leaf),
+              '%sx: %s' % (rng.choice(['', '', '?']), rng.choice(['A+', 'A*', 'A | A A', '"a"+'])),
+              'x2: A+ | b1', 'y: "b" | B', 'A: "a"', 'B: "b"']
+    return '\n'.join(lines + rules) + '\n'
+
+
 def gen_grammar(rng, lexer, cyclic):
     """returns grammar text. Rule names: start, x, y, ?q, _i, !k ; terminals by lexer."""
+    if not cyclic and rng.random() < 0.2:
+        return gen_chain_grammar(rng, lexer)
     if not cyclic and rng.random() < 0.45:
         return gen_split_grammar(rng, lexer)
     dense = rng.random() < 0.3     # many non-terminals per alternative over few terminals: split ambiguity,
@@ -1183,18 +1246,31 @@ def count_expansions(t, cap=10 ** 6):
     return n
 
 
-def run_stream(ctx, stream, ngrammars, cyclic_wanted, maxlen, cases, meta, defs, acases=None, ignore=False):
+def run_stream(ctx, stream, ngrammars, cyclic_wanted, maxlen, cases, meta, defs, acases=None, ignore=False, corpus=None):
     from lark.exceptions import GrammarError
     from lark import Tree
     rng = ctx.rng
     made = 0
     attempts = 0
-    while made < ngrammars and attempts < ngrammars * 30:
+    fixed = []
+    if corpus is not None:
+        # fixed corpus: every grammar under every lexer, with and without placeholders; no randomness
+        fixed = [(g, lexer, {'maybe_placeholders': mp, 'keep_all_tokens': False}, inputs)
+                 for g, inputs in corpus for lexer in ('basic', 'dynamic', 'dynamic_complete') for mp in (True, False)]
+        ngrammars = len(fixed)
+    while made < ngrammars and attempts < max(1, ngrammars) * 30:
         attempts += 1
-        lexer = rng.choice(['basic', 'dynamic', 'dynamic_complete', 'dynamic_complete'])
-        opts = {'maybe_placeholders': rng.random() < 0.8, 'keep_all_tokens': rng.random() < 0.1}
         alphabet = 'ab'
-        if ignore:
+        if corpus is not None:
+            if attempts > len(fixed):
+                break
+            g, lexer, opts, fixed_inputs = fixed[attempts - 1]
+        else:
+            lexer = rng.choice(['basic', 'dynamic', 'dynamic_complete', 'dynamic_complete'])
+            opts = {'maybe_placeholders': rng.random() < 0.8, 'keep_all_tokens': rng.random() < 0.1}
+        if corpus is not None:
+            pass
+        elif ignore:
             # grammars with %ignore terminals; half of them with the ambiguity at the root between differently shaped
             # alternatives of the start symbol; mostly the dynamic lexers (ignored text is skipped by the parser itself)
             lexer = rng.choice(['basic', 'dynamic', 'dynamic', 'dynamic_complete', 'dynamic_complete'])
@@ -1213,16 +1289,20 @@ def run_stream(ctx, stream, ngrammars, cyclic_wanted, maxlen, cases, meta, defs,
             ctx.violation('hang', witness(g, lexer, '', opts), True, 'Lark() did not terminate')
             continue
         cyclic = has_derivation_cycle(parser.rules)
-        if cyclic != cyclic_wanted:
+        if corpus is None and cyclic != cyclic_wanted:
             continue
         made += 1
         inputs = list(all_inputs(alphabet, maxlen))
-        inputs += [''.join(rng.choice(alphabet) for _ in range(rng.randint(maxlen + 1, maxlen + 2))) for _ in range(3)]
+        longer = [''.join(rng.choice(alphabet) for _ in range(rng.randint(maxlen + 1, maxlen + 2))) for _ in range(3)]
         if not cyclic:
+            # (cyclic grammars: converting the forest of a longer input can take minutes and a time-out there is no verdict)
+            inputs += longer
             inputs += ['a' * k for k in range(maxlen + 1, maxlen + 4)] + ['a' * rng.randint(2, 5) + 'b', 'b' + 'a' * rng.randint(2, 5)]
         if ignore:
             inputs = [t for t in inputs if len(t) <= maxlen]
             inputs = inputs + [decorate(rng, t, ign_chars) for t in inputs for _ in range(2)] + [rng.choice(ign_chars)]
+        if corpus is not None:
+            inputs = list(fixed_inputs)
         for text in inputs:
             obs = run_case(g, lexer, text, parser=parser)
             verdict = property_verdict(parser, lexer, text, obs, cyclic, mp=opts['maybe_placeholders'])
@@ -1283,6 +1363,7 @@ def correspond(ctx):
     cases, meta, defs = [], [], []
     k = 3 if ctx.widen else 1
     acases = ([], [], [])
+    run_stream(ctx, 'stacked-corpus', 0, False, 0, cases, meta, defs, acases, corpus=STACKED_CORPUS)
     run_stream(ctx, 'acyclic', ctx.scale(80, 1500) * k, False, 4, cases, meta, defs, acases)
     run_stream(ctx, 'cyclic', ctx.scale(25, 300) * k, True, 3, cases, meta, defs, acases)
     # %ignore: layer B and the derivation oracle only (the span bookkeeping of layer A has no notion of ignored text)
